@@ -849,9 +849,11 @@ def _handler_names(fn: object, around_call: str) -> list[list[str]]:
     return out
 
 
-@task(q=10, t=10, encoded=[srv.RpcServer.serve_one, srv.RpcServer.serve], bound="live source", engine="ast+z3")
+@task(q=10, t=10, encoded=[srv.RpcServer.serve_one, srv.RpcServer.serve], bound="live source", engine="assumption-check")
 def serve_loop_answers_typed_errors(budget: float, replay=None) -> dict:
-    """The assumption used by the conditions, decided on the live source with a (tiny) z3 query.
+    """ASSUMPTION CHECK, not a deciding step: the conditions assume that serve_one answers typed
+    errors and returns; this item re-reads that from the live source (the z3 query is a trivial
+    propositional restatement and adds nothing a set comparison would not).
 
     serve_one must catch RpcError and VersionError around _read_request, write an error stream and
     *return*; z3 checks that the handler set read from the AST covers both typed classes and that
